@@ -43,6 +43,11 @@ func (hcb HopCountBlock) IsExceeded() bool {
 
 // Increment the hop counter and returns if the hop limit is exceeded afterwards.
 func (hcb *HopCountBlock) Increment() bool {
+	// The counter is an octet: one more hop than 255 cannot be represented and always exceeds the limit.
+	if hcb.Count == 255 {
+		return true
+	}
+
 	hcb.Count++
 
 	return hcb.IsExceeded()
